@@ -64,7 +64,7 @@ def execute(case):
         raise env.HarnessError("mining.time missing")
     run = chainexec.Run({k: case[k] for k in ("cfg", "ops", "deep") if k in case}, ("C12",))
     run.execute()
-    if run.harness:
+    if run.degenerate():
         raise env.HarnessError(run.harness[0])
     led = run.world.uni
     cs = run.cs
